@@ -842,6 +842,12 @@ func c18PanicPreconditions(c *Ctx, scope []*ssa.Function) map[string]bool {
 					}
 				}
 				construct := fmt.Sprintf("AddCert #%d receives a non-nil certificate", siteOrdinalByID(f, call))
+				if !ok && c.P.isNewFunction(fname(f)) {
+					// inside a helper that is not on the reference list: whether its argument holds parsed
+					// certificates is a fact about its callers
+					c.Undecided("B-PANIC", fname(f), construct, fname(f)+" is a new helper; its callers may establish that the certificates are non-nil: "+why, call.Pos())
+					continue
+				}
 				c.Check(ok, "B-PANIC", fname(f), construct, why, "CertPool.AddCert panics for a nil certificate: "+why, call.Pos())
 				if !ok {
 					allOK[sc] = false
